@@ -4,6 +4,7 @@ import (
 	"bytes"
 	"fmt"
 	"io"
+	"strconv"
 	"strings"
 	"unicode"
 	"unicode/utf8"
@@ -362,7 +363,7 @@ func (l *Lexer) quotedToken() (Token, error) {
 			s := l.chunk()
 
 			// Checks if it contains invalid octal or hexadecimal escape sequences.
-			if strings.ContainsRune(unquote(s), utf8.RuneError) {
+			if !validEscapeSequences(s) {
 				return Token{kind: tokenInvalid, val: s}, nil
 			}
 
@@ -387,6 +388,24 @@ func (l *Lexer) quotedToken() (Token, error) {
 			return Token{kind: tokenInvalid, val: l.chunk()}, nil
 		}
 	}
+}
+
+// validEscapeSequences checks if every octal or hexadecimal escape sequence in the quoted token denotes a character.
+// U+FFFD itself is a character: '\xfffd\' is valid while '\x110000\' is not.
+func validEscapeSequences(s string) bool {
+	for _, e := range quotedIdentEscapePattern.FindAllString(s, -1) {
+		if len(e) < 3 || e[len(e)-1] != '\\' { // Not an octal nor hexadecimal escape sequence.
+			continue
+		}
+		digits, base := e[1:len(e)-1], 8
+		if digits[0] == 'x' {
+			digits, base = digits[1:], 16
+		}
+		if r, err := strconv.ParseInt(digits, base, 4*8); err != nil || !utf8.ValidRune(rune(r)) {
+			return false
+		}
+	}
+	return true
 }
 
 func (l *Lexer) escapeSequence(cont func() (Token, error)) (Token, error) {
